@@ -755,6 +755,9 @@ def rand_layout(rng, max_n):
                grouping_cfg=True)
 
 
+FINE_UNITS = [115, 125, 128, 130, 134, 4, 7, 12, 333, 334, 338, 500]
+
+
 class RandomCredits(object):
     """credit table of a random case: palette values, optionally with a planted perfect answer"""
 
@@ -768,6 +771,8 @@ class RandomCredits(object):
         r = self.rng
         if self.style == 'binary':
             return Fraction(r.choice([0, 0, 1]))
+        if self.style == 'fine':                           # thousandths: closer than 0.005, sums differ after several cells
+            return Fraction(r.choice(FINE_UNITS), 1000)
         if self.style == 'sparse':                         # low totals: small credits decide the assignment
             return r.choice([Fraction(0)] * 5 + [Fraction(1, 2), Fraction(1)])
         if self.style == 'ties':
@@ -789,7 +794,7 @@ class RandomCredits(object):
     def gd(self, coords, alt):
         k = (tuple(coords), alt)
         if k not in self.gdm:
-            self.gdm[k] = Fraction(1) if alt == 1 else self.rng.choice([Fraction(1), Fraction(1, 2), Fraction(7, 10)])
+            self.gdm[k] = Fraction(1) if alt == 1 or self.style == 'fine' else self.rng.choice([Fraction(1), Fraction(1, 2), Fraction(7, 10)])
         return self.gdm[k]
 
     def plant_perfect(self, d, prefix, positions):
@@ -814,7 +819,10 @@ class RandomCredits(object):
 def make_random_case(seed, i, max_n):
     rng = random.Random('%s-%d' % (seed, i))
     desc = rand_layout(rng, max_n)
-    cr = RandomCredits(rng, rng.choice(['palette', 'palette', 'binary', 'ties', 'sparse']))
+    style = rng.choice(['palette', 'palette', 'binary', 'ties', 'sparse', 'fine'])
+    if style == 'fine' and 's1' in shape_key(desc):
+        style = 'palette'          # SingleListGrader cells average items: keeps every rational of a fine case a small multiple of 1/1000
+    cr = RandomCredits(rng, style)
     if rng.random() < .35:
         cr.plant_perfect(desc, [], list(range(1, npos(desc) + 1)))
     return desc, cr
@@ -906,7 +914,8 @@ def observe_chunk(items, extra):
 # SingleListGrader use): random credit matrices with 4..7 inputs over small palettes, graded by real ListGraders with
 # TableGrader subgraders and judged by the trace spec (n! enumeration for 4 inputs, LP-duality certificate above).
 CORE_SIZES = [4] * 2 + [5] * 6 + [6] * 7 + [7] * 5
-CORE_DENS = [2, 2, 1, 3, 4]
+CORE_DENS = [2, 2, 1, 3, 4, 1000]
+CORE_FINE = [[115, 125, 130], [115, 125, 128, 130, 134], [4, 7, 12], [333, 334, 338, 341], [120, 124, 127, 500]]
 
 
 def core_case(seed, i):
@@ -916,7 +925,9 @@ def core_case(seed, i):
     A = 2 if r.random() < .15 else 1
     pc = r.random() < .9
     style = r.random()
-    if style < .6:
+    if den == 1000:
+        pal = r.choice(CORE_FINE)                            # thousandths, closer than half a percent
+    elif style < .6:
         pal = list(range(den + 1))
     elif style < .8:
         pal = [0] * 2 + list(range(den + 1))                 # sparse
@@ -1171,7 +1182,8 @@ def run(ctx):
     big = sum(1 for r in good if has_cert(r['tree']))
     ctx.extra['bounds'] = {'tier': ctx.tier, 'random_records': len(good), 'random_skipped_large_rationals': skipped,
                            'random_with_certificate': big, 'max_inputs_random': max_n,
-                           'flat': 'n=2,3 over {0,1/2,1}, n=4 over {0,1} (quick: subsets), 1-3 answer lists',
+                           'flat': 'n=2,3 over {0,1/2,1}, n=4 over {0,1} (quick: subsets), 1-3 answer lists; n=2,3,4 over thousandths '
+                                   '{.115,.125,.128,.13} (pairs closer than 0.005, totals differing only after 2-4 cells)',
                            'groupings_real_graders': 'all valid groupings of <= %s inputs through two-level real graders' % (
                                '5 (6 with <= 3 groups)' if ctx.quick else '6 (7 with <= 3 groups, 8 with 2 groups)'),
                            'groupings_group_map': 'all valid groupings of <= %d inputs: laws + helper drift monitor + 1/%d through a real grader' % (
@@ -1179,7 +1191,7 @@ def run(ctx):
                            'rectangular_groups': 'unordered 2x3, 2x4, 3x2 groups, contiguous and interleaved, banded 0/1 and 0/half/1 '
                                                  'credits with every low cell credit, inner ordered/unordered, partial credit on/off',
                            'grader_calls_replayed': total_calls,
-                           'matching_core_records': '%d random flat unordered problems, 4..7 inputs, credits k/den for den in 1..4, '
+                           'matching_core_records': '%d random flat unordered problems, 4..7 inputs, credits k/den for den in 1..4 and thousandths closer than 0.005, '
                                                     'n! enumeration at 4 inputs, checked LP-duality certificate above' % len(cgood)}
     ctx.extra['random_shapes'] = len(shapes)
     ctx.assumptions += [
